@@ -280,7 +280,7 @@ theorem Rec.compact (c : Cfg) {s : Engine} (hR : Rec s) (hQ : Quiet s) (hB : Lab
   cases he : s.runs.isEmpty with
   | true => rw [compact_noop c s he]; exact ⟨hR, hQ⟩
   | false =>
-  obtain ⟨root, sr, heq⟩ := compact_eq c s he
+  obtain ⟨st, root, sr, heq⟩ := compact_eq c s he
   rw [heq]
   have hck := hR.ckptLt
   obtain ⟨⟨txs, hb, hl, hs, hg, b1, b2, b3⟩, hp, ha⟩ := hR
